@@ -306,6 +306,55 @@ Section Trees.
     now apply (find_and_expand_uri_error def retrieve s uri e).
   Qed.
 
+
+  (* ---- the last round: the original text of an expandedValue has settled ------------------------------ *)
+  Definition structured (x : cv) : bool := match x with CStr _ | CExp _ _ => false | _ => true end.
+
+  Lemma expand_string_unchanged o v : expand_string def retrieve o = Ok (v, false) -> v = CStr o.
+  Proof.
+    unfold expand_string.
+    destruct (negb (contains [cDollar; cOpen] o) || negb (has_char cClose o)); [intros H; now inversion H|].
+    unfold find_and_expand. destruct (find_uri def o) as [uri|]; [|intros H; now inversion H].
+    destruct (str_eqb uri o).
+    - destruct (expand_uri def retrieve o) as [ret|e]; [|discriminate].
+      destruct (as_string ret); intros H; inversion H.
+    - destruct (expand_uri def retrieve uri) as [ret|e]; [|discriminate].
+      destruct (as_string ret); intros H; inversion H.
+  Qed.
+
+  Lemma expand_value_structured x e c :
+    structured x = true -> expand_value def retrieve x = Ok (e, c) -> structured e = true.
+  Proof.
+    destruct x; try discriminate; intros _ H; cbn [expand_value] in H; try (inversion H; reflexivity).
+    - match type of H with match ?g with _ => _ end = _ => destruct g as [[l' c']|e'] end;
+        inversion H; reflexivity.
+    - match type of H with match ?g with _ => _ end = _ => destruct g as [[l' c']|e'] end;
+        inversion H; reflexivity.
+  Qed.
+
+  Lemma original_settled x o x' o' :
+    structured x = true ->
+    expand_value def retrieve (CExp x o) = Ok (CExp x' o', false) ->
+    o' = o /\ expand_string def retrieve o = Ok (CStr o, false) /\ expand_value def retrieve x = Ok (x', false).
+  Proof.
+    intros Hs H. cbn [expand_value] in H.
+    destruct (expand_value def retrieve x) as [[e c]|err] eqn:Ex; [|discriminate].
+    pose proof (expand_value_structured x e c Hs Ex) as He.
+    destruct e; try discriminate;
+      (destruct (expand_string def retrieve o) as [[w oc]|err] eqn:Eo; [|inversion H];
+       destruct w; inversion H; subst;
+       match goal with Hc : _ || _ = false |- _ => apply orb_false_iff in Hc as [-> ->] end;
+       pose proof (expand_string_unchanged _ _ Eo) as Hw; inversion Hw; subst; auto).
+  Qed.
+
+  Lemma expand_rec_last_round f : forall v v',
+    expand_rec def retrieve f v = Ok v' -> exists vk, expand_value def retrieve vk = Ok (v', false).
+  Proof.
+    induction f as [|f IH]; intros v v' H; [discriminate|]. cbn [expand_rec] in H.
+    destruct (expand_value def retrieve v) as [[w c]|e] eqn:E; [|discriminate].
+    destruct c; [now apply (IH w)|]. inversion H; subst. now exists v.
+  Qed.
+
   (* a single source with one string leaf: what Resolve returns is what the leaf resolves to *)
   Lemma resolve_one_leaf k s v :
     resolve_string def retrieve s = Ok v ->
